@@ -2,10 +2,11 @@
    for ALL operation sequences, obtained from the refinement theorems of
      PoolMaps.v (association lists; slashing and exit pools)   PoolBits.v (byte-level bit lists)
      PoolAtt.v  (attestation pool)                              PoolSync.v (sync-committee pool)
+     PoolSafe.v (no panic for arbitrary arguments)
    and the machine-checked witnesses of the defects of the pinned snapshot ([_refuted]). *)
 From Coq Require Import NArith List Bool Lia Permutation.
 From V Require Import Base.U64 Base.Outcome Pool.PoolModel Pool.PoolSpec.
-From V Require Export Pool.PoolMaps Pool.PoolBits Pool.PoolAtt Pool.PoolSync.
+From V Require Export Pool.PoolMaps Pool.PoolBits Pool.PoolAtt Pool.PoolSync Pool.PoolSafe.
 Import ListNotations.
 Local Open Scope N_scope.
 
@@ -34,6 +35,11 @@ Qed.
 (** * add_no_panic *)
 Theorem add_no_panic_attestations : forall ops, Forall aop_wf ops -> ~ In ARPanic (ap_run fixed ap_init ops).
 Proof. exact ap_no_panic. Qed.
+(* ... and for arbitrary byte strings, committees, buffer indices and slots (no well-formedness needed) *)
+Theorem never_panics_attestations : forall ops, ~ In ARPanic (ap_run fixed ap_init ops).
+Proof. exact ap_never_panics. Qed.
+Theorem never_panics_sync : forall ops, ~ In SRPanic (sp_run fixed sp_init ops).
+Proof. exact sp_never_panics. Qed.
 Theorem add_no_panic_slashings_exits : forall ops, ~ In KRPanic (kp_run kp_init ops).
 Proof. exact kp_add_no_panic. Qed.
 Theorem add_no_panic_sync : forall ops, Forall sop_ok ops -> ~ In SRPanic (sp_run fixed sp_init ops).
